@@ -66,7 +66,7 @@ def run(ctx):
         if k not in seen:
             seen.add(k)
             cases.append(b)
-    want = 4 * (3 + 1) * 4 * 3 * 2
+    want = 4 * (3 + 3) * 4 * 3 * 2   # at-or-above: pad 0 (own encoder) + mid / max (a foreign encoder, EncodeForeign)
     if len(cases) != want:
         raise lib.Inconclusive("expected %d abstract cases from the generator, got %d" % (want, len(cases)))
     inp = lib.write_lines(os.path.join(ctx.work, "c04_cases.ndjson"), cases)
@@ -117,7 +117,7 @@ def run(ctx):
     cov = {
         "evaluations": ev,
         "distinct_nontrivial": nt,
-        "rule": "abstract cases = terminal states of FrameCodecGen (4 methods x {below: pad 0/mid/max, at-or-above: pad 0} x "
+        "rule": "abstract cases = terminal states of FrameCodecGen (4 methods x {below: pad 0/mid/max, at-or-above: pad 0 and, from a foreign encoder, mid/max} x "
                 "length class {1, small, Max-1, Max} x closing {0,1,2} x placement {in, out}) = %d; each is expanded to %s "
                 "payload lengths of its class, 3 padding draws each, stream id / sequence number rotating over "
                 "{0,4,5,2^32-1,2^32,2^64-1,random} on the case's side of the threshold, a fresh random key per 256 lengths; "
